@@ -113,9 +113,21 @@ class YowNoiseLayer(YowLayer):
             )
             if not self._in_handshake():
                 logger.debug("Performing handshake [username= %d, passive=%s]" % (username, passive) )
+                # every login attempt gets its own protocol state, stream and segment queue, and a worker left over
+                # from a connection that was cut off is woken up so that it ends: it can neither consume this
+                # attempt's server reply nor report its own failure as this attempt's
+                if self._handshake_worker is not None and self._handshake_worker.is_alive():
+                    self._incoming_segments_queue.put(b"")
+                protocol = WANoiseProtocol(
+                    4, 0, protocol_state_callbacks=lambda state: self._on_protocol_state_changed(state)
+                    if protocol is self._wa_noiseprotocol else None
+                )
+                self._wa_noiseprotocol = protocol
+                self._stream = BlockingQueueSegmentedStream()
+                self._incoming_segments_queue = Queue.Queue()
                 self._handshake_worker = WANoiseProtocolHandshakeWorker(
                     self._wa_noiseprotocol, self._stream, client_config, local_static, remote_static,
-                    self.on_handshake_finished
+                    lambda e=None: self.on_handshake_finished(e) if protocol is self._wa_noiseprotocol else None
                 )
                 logger.debug("Starting handshake worker")
                 self._stream.set_events_callback(self._handle_stream_event)
